@@ -145,6 +145,20 @@ def explore_case(case: Case, open_regions: List[str], fidelity: str = "all", sto
             failing, hit, outcome2 = plain_verdict(case, values, open_regions)
             set_ctx(ctx)
             if not failing:
+                # the plain oracle compares by VALUE where the symbolic one compares by identity: a model with equal
+                # integers can hide a mix-up of values. Ask the solver for a model with pairwise distinct integers.
+                ints = [z for z in ctx.inputs.values() if z3.is_int(z)]
+                if len(ints) >= 2:
+                    ctx.obligations -= 1
+                    m2 = ctx.prove(z3.Or(goal, z3.Not(z3.Distinct(*ints))) if not isinstance(goal, bool)
+                                   else z3.Not(z3.Distinct(*ints)))
+                    if m2 is not None:
+                        values = ctx.model_values(m2)
+                        failing, hit, outcome2 = plain_verdict(case, values, open_regions)
+                        set_ctx(ctx)
+                    else:
+                        ctx.discharged -= 1
+            if not failing:
                 raise HarnessError("counterexample does not reproduce on plain data: %s values=%s outcome_sym=%s "
                                    "outcome_plain=%s" % (case.describe(), values, jsonable(outcome),
                                                           jsonable(outcome2)))
